@@ -117,6 +117,8 @@ package framework
 // existing entries stay.
 //@ define logsGrow() bool = forall st *Statement :: len(st.operations) >= old(len(st.operations))
 //@ define entriesKept() bool = forall st *Statement, j int :: 0 <= j && j < old(len(st.operations)) ==> st.operations[j] == old(st.operations[j])
+// no existing Operation cell (log slot or local) is overwritten: logs are append-only and append copies
+//@ define opCellsKept() bool = forall p *Operation :: old(allocated(p)) ==> *p == old(*p)
 // entries appended by the callee are well-formed ones (together with entriesKept: wfLog is preserved)
 //@ define okEntry(o Operation, j int) bool = knownOp(o) && revFn(o) != nil && (!isUndoOp(o) ==> opTask(o) != nil) && (isUndoOp(o) ==> 0 <= undoTarget(o) && undoTarget(o) < j)
 //@ define newEntriesOK() bool = forall st *Statement, j int :: old(len(st.operations)) <= j && j < len(st.operations) ==> okEntry(st.operations[j], j)
@@ -184,10 +186,7 @@ package framework
 //@   modifies *
 //@   ensures [lenGrows] len(s.operations) >= old(len(s.operations))
 //@   ensures [prefixKept] forall j int :: 0 <= j && j < old(len(s.operations)) ==> s.operations[j] == old(s.operations[j])
-//@   ensures [wfKnown] wfKnown(s)
-//@   ensures [wfRev] wfRev(s)
-//@   ensures [wfBack] wfBack(s)
-//@   ensures [wfTask] wfTask(s)
+//@   ensures [newEntriesOK] forall j int :: old(len(s.operations)) <= j && j < len(s.operations) ==> okEntry(s.operations[j], j)
 //@   ensures [invalidSkipped] old(undone(s, index)) ==> result == nil && len(s.operations) == old(len(s.operations)) && reversals() == old(reversals())
 //@   ensures [virtual] cache.evictCalls() == old(cache.evictCalls()) && cache.pipelinedCalls() == old(cache.pipelinedCalls()) && cache.bindCalls() == old(cache.bindCalls())
 //@   ensures [reversalsMonotone] old(reversals()) <= reversals()
@@ -571,10 +570,7 @@ package framework
 //@     decreases len(s.operations) - rangeindex
 //@   ensures [lenGrows] len(s.operations) >= old(len(s.operations))
 //@   ensures [prefixKept] forall j int :: 0 <= j && j < old(len(s.operations)) ==> s.operations[j] == old(s.operations[j])
-//@   ensures [wfKnown] wfKnown(s)
-//@   ensures [wfRev] wfRev(s)
-//@   ensures [wfBack] wfBack(s)
-//@   ensures [wfTask] wfTask(s)
+//@   ensures [newEntriesOK] forall j int :: old(len(s.operations)) <= j && j < len(s.operations) ==> okEntry(s.operations[j], j)
 //@   ensures [reversalsMonotone] old(reversals()) <= reversals()
 //@   ensures [emptyLogFails] old(len(s.operations)) == 0 ==> result != nil && reversals() == old(reversals())
 //@   ensures [virtual] cache.evictCalls() == old(cache.evictCalls()) && cache.pipelinedCalls() == old(cache.pipelinedCalls()) && cache.bindCalls() == old(cache.bindCalls())
@@ -748,4 +744,13 @@ package framework
 //@   ensures [nominateOnlyForLivePipelines] (forall j int :: 0 <= j && j < old(len(s.operations)) ==> !(old(live(s, j)) && isPipelineOp(old(s.operations[j])))) ==> cache.pipelinedCalls() == old(cache.pipelinedCalls())
 //@   ensures [bindOnlyForLiveAllocates] (forall j int :: 0 <= j && j < old(len(s.operations)) ==> !(old(live(s, j)) && isAllocateOp(old(s.operations[j])))) ==> cache.bindCalls() == old(cache.bindCalls())
 //@   ensures [emptyLogIsNoop] old(len(s.operations)) == 0 ==> result == nil && emitted() == old(emitted())
+//@ end
+
+// ---- session.go -----------------------------------------------------------------------------------
+// C13: every what-if simulation starts from an empty log bound to the session.
+//@ func (*Session).Statement
+//@   props C13
+//@   requires ssn != nil
+//@   fresh
+//@   ensures result.ssn == ssn && len(result.operations) == 0 && result.sessionID == ssn.ID
 //@ end
